@@ -116,13 +116,13 @@ U("replace_item_in_object", "cjson", "harness/replace_item_in_object.c", enforce
   note="aliasing precondition: the key argument may be the replacement's own key")
 
 # ---------------------------------------------------------------- cJSON.c : containers (skeleton units, children <= K)
-U("parse_array", "cjson", "harness/parse_array.c", tiers=(), enforce="parse_array", shape="S", bound="children <= 3",
-  props=["C01", "C02", "C03", "C07", "C08", "C14", "C20"], covers=5, defs=["-DVF_CONTAINER_VIEWS"], unwindset=["parse_array.0:4"], bounded_loops=[r"parse_array.*\.unwind\."],
+U("parse_array", "cjson", "harness/parse_array.c", enforce="parse_array", shape="S", bound="children <= 3", object_bits=10,
+  props=["C01", "C02", "C03", "C07", "C08", "C14", "C20"], covers=5, defs=["-DVF_CONTAINER_VIEWS"], unwindset=["parse_array.0:3"], bounded_loops=[r"parse_array.*\.unwind\."],
   replace=["cJSON_New_Item/cJSON_New_Item_cv", "parse_value/parse_value_cv", "cJSON_Delete/cJSON_Delete_chain_cv", "buffer_skip_whitespace/buffer_skip_whitespace_cv"], timeout=(900, 3000),
   note="element values arbitrary (recursive call replaced by its contract); only the element loop is cut at K")
-U("parse_object", "cjson", "harness/parse_object.c", tiers=(), enforce="parse_object", shape="S", bound="members <= 2", loops=True, expect_loop_obligations=1,
+U("parse_object", "cjson", "harness/parse_object.c", enforce="parse_object", shape="S", bound="members <= 3", object_bits=10,
   props=["C01", "C02", "C03", "C07", "C08", "C14", "C20"], covers=5, defs=["-DVF_CONTAINER_VIEWS"], unwindset=["parse_object.0:3"], bounded_loops=[r"parse_object.*\.unwind\."],
-  replace=["cJSON_New_Item/cJSON_New_Item_cv", "parse_string/parse_string_cv", "parse_value/parse_value_cv", "cJSON_Delete/cJSON_Delete_chain_cv"], timeout=(900, 3000))
+  replace=["cJSON_New_Item/cJSON_New_Item_cv", "parse_string/parse_string_cv", "parse_value/parse_value_cv", "cJSON_Delete/cJSON_Delete_chain_cv", "buffer_skip_whitespace/buffer_skip_whitespace_cv"], timeout=(900, 3000))
 U("cJSON_Delete", "cjson", "harness/cJSON_Delete.c", tiers=(), enforce="cJSON_Delete", rec=True, shape="S", bound="chain <= 2 nodes, children abstract", props=["C07", "C14", "C20"], covers=2,
   unwindset=["cJSON_Delete.0:3"], bounded_loops=[r"cJSON_Delete.*\.unwind\."], timeout=(900, 3000),
   note="recursive call cut by the contract (--enforce-contract-rec, opaque subtree tokens)")
@@ -158,3 +158,25 @@ U("u_index_b", "utils", "harness/u_index_b.c", no_contract=True, shape="B", boun
 U("u_pointer_codec_b", "utils", "harness/u_pointer_codec_b.c", no_contract=True, shape="B", bound="key <= 4 bytes, token <= 8 bytes (quick); 5/10 (thorough)",
   funcs=["compare_pointers", "pointer_encoded_length", "encode_string_as_pointer", "decode_pointer_inplace"], props=["C15", "C16", "C17"], covers=3,
   tdefs={"quick": ["-DPC_N=4"], "thorough": ["-DPC_N=5"]}, tunwind={"quick": 12, "thorough": 14}, timeout=(900, 3000))
+
+# ---------------------------------------------------------------- cJSON.c : recursive tree functions on small symbolic trees (bounded)
+U("delete_b", "cjson", "harness/delete_b.c", no_contract=True, shape="B", bound="trees <= 4 nodes, depth <= 2", funcs=["cJSON_Delete"], props=["C07", "C14"], covers=3, unwind=5,
+  timeout=(900, 3000), note="all flag/type combinations; real recursion unwound")
+U("duplicate_b", "cjson", "harness/duplicate_b.c", no_contract=True, shape="B", bound="trees <= 4 nodes, depth <= 2", funcs=["cJSON_Duplicate", "cJSON_Duplicate_rec"],
+  props=["C11", "C07", "C08", "C14"], covers=3, unwind=5, timeout=(900, 3000), defs=["-DVF_BUILTIN_STRINGS", "-DVF_BUILTIN_MEMCPY"],
+  note="all flag/type combinations, allocator may refuse every request; real recursion unwound")
+U("compare_b", "cjson", "harness/compare_b.c", no_contract=True, shape="B", bound="pairs of trees <= 3 nodes each, depth <= 1", funcs=["cJSON_Compare", "get_object_item", "case_insensitive_strcmp", "compare_double"],
+  props=["C12"], covers=4, unwind=5, timeout=(900, 3000), defs=["-DVF_BUILTIN_STRINGS"], note="model equality from the property text; symmetry, reflexivity, no modification")
+U("u_pointer_b", "both", "harness/u_pointer_b.c", no_contract=True, shape="B", bound="documents <= 4 nodes, pointers <= 5 bytes (quick) / 6 (thorough)", funcs=["get_item_from_pointer", "decode_array_index_from_pointer", "compare_pointers", "cJSONUtils_GetPointerCaseSensitive"],
+  props=["C15"], covers=4, tdefs={"quick": ["-DPT_N=5"], "thorough": ["-DPT_N=6"]}, tunwind={"quick": 8, "thorough": 9}, timeout=(900, 3000))
+U("u_findpointer_b", "both", "harness/u_findpointer_b.c", no_contract=True, shape="B", bound="documents <= 4 nodes, depth <= 2", funcs=["cJSONUtils_FindPointerFromObjectTo", "pointer_encoded_length", "encode_string_as_pointer", "get_item_from_pointer"],
+  props=["C15"], covers=3, unwind=10, timeout=(900, 3000))
+U("u_mergepatch_b", "both", "harness/u_mergepatch_b.c", no_contract=True, shape="B", bound="target and patch <= 3 nodes each, members are leaves", funcs=["merge_patch", "cJSONUtils_MergePatchCaseSensitive"],
+  props=["C18"], covers=3, unwind=6, timeout=(900, 3000), note="RFC 7396 pseudo-code as reference; real Duplicate/Delete/Detach/Add underneath")
+U("lookups_b", "cjson", "harness/lookups_b.c", no_contract=True, shape="B", bound="containers <= 4 children, 1-byte keys", funcs=["cJSON_GetArraySize", "get_array_item", "cJSON_GetArrayItem", "get_object_item", "case_insensitive_strcmp", "cJSON_GetObjectItem", "cJSON_GetObjectItemCaseSensitive", "cJSON_HasObjectItem"],
+  props=["C06"], covers=3, unwind=7, timeout=(900, 3000))
+U("create_arrays_b", "cjson", "harness/create_arrays_b.c", no_contract=True, shape="B", bound="count <= 3", funcs=["cJSON_CreateIntArray", "cJSON_CreateFloatArray", "cJSON_CreateDoubleArray", "cJSON_CreateStringArray"],
+  props=["C06", "C07", "C08"], covers=4, unwind=6, timeout=(900, 3000))
+U("setvaluestring_b", "cjson", "harness/setvaluestring_b.c", no_contract=True, shape="B", bound="old string <= 3 bytes, new string <= 4 bytes", funcs=["cJSON_SetValuestring"],
+  props=["C06", "C07", "C08"], covers=4, unwind=8, timeout=(900, 3000), ignore_desc=[r"same object violation"],
+  note="the overlap test in cJSON_SetValuestring compares pointers into unrelated objects (flagged by CBMC as 'same object violation'; benign on flat address spaces, not a claim of any property here)")
